@@ -61,8 +61,7 @@ C05Labels(c) ==
   \cup (IF c.out.stopped \notin {"Done", "Limited", "BreakpointReached"} THEN {"unknown-stop-reason"} ELSE {})
   \cup
   \* split equivalence: claimed when neither limit nor breakpoint intervened and the walk is deterministic
-  (LET det == ~c.nilbs /\ AllJudgeable(c) /\ (\A i \in DOMAIN S(c) : ~S(c)[i].q) /\ \A i \in DOMAIN S(c) :
-                 Cardinality(WalkStrideOutcomes(c.spec, NormSt(S(c)[i].from), PendingAt(c, i), Perm(c))) = 1
+  (LET det == ~c.nilbs /\ AllJudgeable(c) /\ (\A i \in DOMAIN S(c) : ~S(c)[i].q) /\ DetSpec(c.spec)
        clean(sp) == sp.outcome = "returned" /\ \A j \in DOMAIN sp.stops : sp.stops[j] = "Done"
        ok == {j \in DOMAIN c.splits : clean(c.splits[j])}
    IN IF det /\ \E i, j \in ok : \/ NormSt(c.splits[i].final) # NormSt(c.splits[j].final)
